@@ -231,7 +231,12 @@ def mask_rule(prog, rep, rule):
         found = False
         for n in ast.walk(f.node):
             if isinstance(n, ast.AugAssign) and isinstance(n.op, ast.BitAnd):
-                names = [x.id for x in ast.walk(n.value) if isinstance(x, ast.Name)
+                from .common import unalias as _unalias
+                try:
+                    nval = ast.parse(_unalias(f.node, n.value), mode='eval').body    # shift amount held in a local
+                except SyntaxError:
+                    nval = n.value
+                names = [x.id for x in ast.walk(nval) if isinstance(x, ast.Name)
                          and x.id not in f.module.assigns and prog.resolve_name(x.id, f.module) is None]
                 if not names:
                     continue
@@ -240,7 +245,7 @@ def mask_rule(prog, rep, rule):
                 bad = None
                 for r in range(1, 8):
                     try:
-                        m = prog.fold(n.value, f.module, f.cls, {var: r}) & 0xFF
+                        m = prog.fold(nval, f.module, f.cls, {var: r}) & 0xFF
                     except NotConst:
                         bad = (r, 'mask expression not foldable')
                         break
@@ -351,7 +356,7 @@ def _ranges(xs):
     return ', '.join(out)
 
 
-def dispatch_table(prog, pa):
+def dispatch_table(prog, pa, methods=('parse', 'unpack')):
     """type code -> (decoder class name, asn4 argument text, line) from the if/elif chain."""
     out = {}
     # table dispatch: `if type_code in TABLE: TABLE[type_code].parse(value=...)` with TABLE = {code: Class}
@@ -365,7 +370,7 @@ def dispatch_table(prog, pa):
                     if isinstance(a_, ast.Assign) and any(isinstance(t_, ast.Name) and t_.id == tname for t_ in a_.targets):
                         texpr = a_.value
             uses = [c for c in ast.walk(ast.Module(body=n.body, type_ignores=[]))
-                    if isinstance(c, ast.Call) and isinstance(c.func, ast.Attribute) and c.func.attr in ('parse', 'unpack')
+                    if isinstance(c, ast.Call) and isinstance(c.func, ast.Attribute) and c.func.attr in methods
                     and isinstance(c.func.value, ast.Subscript) and src_of(c.func.value.value) == tname]
             if isinstance(texpr, ast.Dict) and uses:
                 for k_, v_ in zip(texpr.keys, texpr.values):
@@ -384,7 +389,7 @@ def dispatch_table(prog, pa):
             if code is None:
                 continue
             for c in ast.walk(ast.Module(body=n.body, type_ignores=[])):
-                if isinstance(c, ast.Call) and isinstance(c.func, ast.Attribute) and c.func.attr in ('parse', 'unpack'):
+                if isinstance(c, ast.Call) and isinstance(c.func, ast.Attribute) and c.func.attr in methods:
                     cls = src_of(c.func.value)
                     asn4 = None
                     for k in c.keywords:
